@@ -133,6 +133,7 @@ type CallRec struct {
 	CHeaderSet  bool
 	CTrailer    metadata.MD
 	CTrailerSet bool
+	hRecvObj, cRecvObj *wrapperspb.BytesValue // receive objects reused across RecvMsg calls (every other call)
 	burst     chan struct{} // closed when the handler has sent its burst (op 'n') or returned
 	burstOnce sync.Once
 	hdrObj, trlObj metadata.MD // reused by the handler when Spec.AliasMD
@@ -246,6 +247,13 @@ func (s *Sim) rec(id int) *CallRec {
 // tag but are still compared by count and position.
 func (s *Sim) cmsg(spec *CallSpec, i int) []byte {
 	n := spec.MsgLen
+	if n == -2 {
+		// every other message is empty: an empty message after a non-empty one
+		if i%2 == 1 {
+			return []byte{}
+		}
+		n = 12
+	}
 	if n < 0 {
 		return []byte{}
 	}
@@ -256,6 +264,13 @@ func (s *Sim) cmsg(spec *CallSpec, i int) []byte {
 }
 func (s *Sim) hmsg(spec *CallSpec, i int) []byte {
 	n := spec.MsgLen
+	if n == -2 {
+		// every other message is empty: an empty message after a non-empty one
+		if i%2 == 1 {
+			return []byte{}
+		}
+		n = 12
+	}
 	if n < 0 {
 		return []byte{}
 	}
@@ -425,6 +440,14 @@ func (s *Sim) hop(r *CallRec, ctx context.Context, ss grpc.ServerStream, op Op) 
 		for i := 0; op.K == 'R' || i < max(op.N, 1); i++ {
 			e.Pt("h.recv")
 			m := new(wrapperspb.BytesValue)
+			if r.Spec.ID%2 == 0 {
+				// (half of the handlers receive into one message object, as code written
+				// against ServerStream.RecvMsg does: decoding replaces what it held)
+				if r.hRecvObj == nil {
+					r.hRecvObj = new(wrapperspb.BytesValue)
+				}
+				m = r.hRecvObj
+			}
 			err := ss.RecvMsg(m)
 			if err != nil {
 				histMu.Lock()
@@ -434,7 +457,7 @@ func (s *Sim) hop(r *CallRec, ctx context.Context, ss grpc.ServerStream, op Op) 
 				return op.K != 'R' && err != io.EOF
 			}
 			histMu.Lock()
-			r.HGot = append(r.HGot, m.GetValue())
+			r.HGot = append(r.HGot, append([]byte(nil), m.GetValue()...))
 			histMu.Unlock()
 			e.Log("h.recv", "", id, "")
 		}
@@ -780,6 +803,12 @@ func (s *Sim) cprog(r *CallRec, st grpc.ClientStream, prog []Op, suffix string) 
 				e.Pt("c.recv")
 				e.Log("c.recv.call", "", id, "")
 				m := new(wrapperspb.BytesValue)
+				if r.Spec.ID%2 == 1 {
+					if r.cRecvObj == nil {
+						r.cRecvObj = new(wrapperspb.BytesValue)
+					}
+					m = r.cRecvObj
+				}
 				err := st.RecvMsg(m)
 				histMu.Lock()
 				if err != nil {
@@ -791,7 +820,7 @@ func (s *Sim) cprog(r *CallRec, st grpc.ClientStream, prog []Op, suffix string) 
 				} else if r.CFinalSet {
 					r.CRecvAfterFinal = append(r.CRecvAfterFinal, nil)
 				} else {
-					r.CGot = append(r.CGot, m.GetValue())
+					r.CGot = append(r.CGot, append([]byte(nil), m.GetValue()...))
 				}
 				overrun := err == nil && len(r.CGot)+len(r.CRecvAfterFinal) > r.Spec.HSendN+8
 				if overrun {
